@@ -340,8 +340,8 @@ impl Monitor for C13 {
                 let (t, r) = match (idx / 2) % 4 {
                     0 => (rng.below(256) as usize, rng.below(256) as usize),
                     1 => (0x80, 0x00),
-                    2 => (0x00, rng.range(1, 256) as usize),
-                    _ => (rng.range(1, 256) as usize, 0x00),
+                    2 => (0x00, 1 + rng.below(255) as usize),
+                    _ => (1 + rng.below(255) as usize, 0x00),
                 };
                 let sc = s127::sc_base(cfg, rng, t, r);
                 s127::compare(col, &sc);
